@@ -18,6 +18,10 @@ pub enum Offset {
     Fraction(f64),
     /// exactly through vertex i (robustness family)
     ThroughVertex(u16),
+    /// exactly through three mesh vertices (the case normal is ignored): typically contains whole mesh edges
+    ThroughThree(u16, u16, u16),
+    /// containing mesh edge number e (in sorted order), turned about it by the angle
+    ThroughEdge(u16, f64),
 }
 
 #[derive(Clone, Debug, Serialize, Deserialize)]
@@ -43,12 +47,12 @@ impl Property for C13 {
         Some(std::time::Duration::from_secs(20))
     }
     fn expected_labels() -> Vec<&'static str> {
-        vec!["closed_mesh", "open_mesh", "convex", "miss", "cut", "through_vertex", "split_pair", "split_one_side", "two_loops", "commutes"]
+        vec!["closed_mesh", "open_mesh", "convex", "miss", "cut", "through_vertex", "split_pair", "split_one_side", "two_loops", "commutes", "exact_in_plane_edge", "exact_convex_loop"]
     }
     fn strategy(t: Tier) -> BoxedStrategy<Case> {
         let gmax = t.pick(8, 14);
         let kind = prop_oneof![3 => closed_kind(2), 2 => open_kind(gmax)].boxed();
-        (clean_mesh(kind, 10.0), unit3(), prop_oneof![8 => unif(-0.2, 1.2).prop_map(Offset::Fraction), 1 => any::<u16>().prop_map(Offset::ThroughVertex)], iso3(10.0))
+        (clean_mesh(kind, 10.0), unit3(), prop_oneof![8 => unif(-0.2, 1.2).prop_map(Offset::Fraction), 1 => any::<u16>().prop_map(Offset::ThroughVertex), 1 => (any::<u16>(), any::<u16>(), any::<u16>()).prop_map(|(a, b, c)| Offset::ThroughThree(a, b, c)), 1 => (any::<u16>(), unif(0.0, 3.1416)).prop_map(|(e, a)| Offset::ThroughEdge(e, a))], iso3(10.0))
             .prop_map(|(mut mesh, normal, offset, t)| {
                 mesh.flip_all = false;
                 Case { mesh, normal, offset, t }
@@ -108,13 +112,44 @@ fn check(case: &Case) -> Verdict {
     let size = soup.size();
     let scale = size + soup.max_abs();
     let tol = 1e-9 * scale;
-    let n = v3(&case.normal).normalize();
+    let mut n = v3(&case.normal).normalize();
+    let mut exact = false;
+    match &case.offset {
+        Offset::ThroughThree(a, b, c) => {
+            let (pa, pb, pc) = (soup.v[idx(*a, soup.v.len())], soup.v[idx(*b, soup.v.len())], soup.v[idx(*c, soup.v.len())]);
+            let m = (pb - pa).cross(&(pc - pa));
+            if m.norm() < 1e-3 * size * size {
+                return Verdict::Discard("three chosen vertices are (nearly) collinear or repeated");
+            }
+            n = m.normalize();
+            exact = true;
+        }
+        Offset::ThroughEdge(e, ang) => {
+            let edges: Vec<(u32, u32)> = bm.topo.edge_faces.keys().cloned().collect();
+            let (a, b) = edges[idx(*e, edges.len())];
+            let dir = (soup.v[b as usize] - soup.v[a as usize]).normalize();
+            let t = if dir.x.abs() < 0.9 { crate::oracle::V3::x() } else { crate::oracle::V3::y() };
+            let p0 = dir.cross(&t).normalize();
+            let p1 = dir.cross(&p0);
+            n = (p0 * ang.cos() + p1 * ang.sin()).normalize();
+            exact = true;
+        }
+        _ => {}
+    }
     let proj: Vec<f64> = soup.v.iter().map(|p| n.dot(&p.coords)).collect();
     let (lo, hi) = (proj.iter().cloned().fold(f64::INFINITY, f64::min), proj.iter().cloned().fold(f64::NEG_INFINITY, f64::max));
     let (d, robust) = match &case.offset {
         Offset::Fraction(f) => (lo + f * (hi - lo), false),
         Offset::ThroughVertex(i) => (proj[idx(*i, proj.len())], true),
+        Offset::ThroughThree(a, _, _) => (proj[idx(*a, proj.len())], false),
+        Offset::ThroughEdge(e, _) => {
+            let edges: Vec<(u32, u32)> = bm.topo.edge_faces.keys().cloned().collect();
+            (proj[edges[idx(*e, edges.len())].0 as usize], false)
+        }
     };
+    if exact {
+        return check_exact(cx, case, &bm, &soup, n, d, &proj);
+    }
     let margin = 1e-4 * size;
     let generic = proj.iter().all(|p| (p - d).abs() >= margin);
     if !robust && !generic {
@@ -272,6 +307,144 @@ fn check(case: &Case) -> Verdict {
         local.iter().filter(|c| c.abs() > 1e-3).count() <= 1
     };
     if !axis_aligned && segs.len() >= 4 {
+        cx.nontrivial();
+    }
+    cx.pass()
+}
+
+
+/// Planes that contain mesh vertices and whole mesh edges exactly.  Every vertex is either on the plane (by
+/// construction, to rounding) or clearly off it, so the classification the sectioning makes with its 1e-6 epsilon
+/// is unambiguous; faces lying in the plane make the section itself ambiguous and are discarded.
+fn check_exact(mut cx: Ctx, case: &Case, bm: &BuiltMesh, soup: &Soup, n: crate::oracle::V3, d: f64, proj: &[f64]) -> Verdict {
+    let size = soup.size();
+    let scale = size + soup.max_abs();
+    let on_tol = 1e-9 * scale;
+    if on_tol > 5e-7 {
+        return Verdict::Discard("mesh too large for the absolute sectioning epsilon");
+    }
+    let mut side = vec![0i8; proj.len()];
+    for (i, p) in proj.iter().enumerate() {
+        let s = p - d;
+        if s.abs() <= on_tol {
+            side[i] = 0;
+        } else if s.abs() >= (1e-4 * size).max(1e-5) {
+            side[i] = if s > 0.0 { 1 } else { -1 };
+        } else {
+            return Verdict::Discard("a vertex is neither on the plane nor clearly off it");
+        }
+    }
+    if !side.iter().any(|s| *s > 0) || !side.iter().any(|s| *s < 0) {
+        return Verdict::Discard("exact plane does not separate the vertices (supporting plane)");
+    }
+    // expected segments, per face, from the vertex classification; geometric de-duplication of shared in-plane edges
+    let mut expected: Vec<(Pt3, Pt3)> = vec![];
+    let mut in_plane_edges = 0;
+    for f in &soup.f {
+        let ids = [f[0] as usize, f[1] as usize, f[2] as usize];
+        let on = ids.iter().filter(|i| side[**i] == 0).count();
+        if on == 3 {
+            return Verdict::Discard("a face lies in the plane");
+        }
+        let mut hits: Vec<Pt3> = vec![];
+        for k in 0..3 {
+            let (a, b) = (ids[k], ids[(k + 1) % 3]);
+            if side[a] == 0 {
+                hits.push(soup.v[a]);
+            } else if side[a] * side[b] < 0 {
+                let (sa, sb) = (proj[a] - d, proj[b] - d);
+                hits.push(soup.v[a] + (soup.v[b] - soup.v[a]) * (sa / (sa - sb)));
+            }
+        }
+        if hits.len() == 2 && (hits[0] - hits[1]).norm() > 1e-7 * scale {
+            if on == 2 {
+                in_plane_edges += 1;
+            }
+            let dup = expected.iter().any(|(a, b)| ((a - hits[0]).norm() <= 1e-8 * scale && (b - hits[1]).norm() <= 1e-8 * scale) || ((a - hits[1]).norm() <= 1e-8 * scale && (b - hits[0]).norm() <= 1e-8 * scale));
+            if !dup {
+                expected.push((hits[0], hits[1]));
+            }
+        }
+    }
+    if expected.is_empty() {
+        return Verdict::Discard("no segment expected");
+    }
+    let min_seg = expected.iter().map(|(a, b)| (a - b).norm()).fold(f64::INFINITY, f64::min);
+    let curve_tol = 1e-9 * size;
+    if min_seg <= 100.0 * curve_tol {
+        return Verdict::Discard("a crossing segment is shorter than the curve tolerance");
+    }
+    cx.label_if(in_plane_edges > 0, "exact_in_plane_edge");
+    cx.label(if bm.topo.closed { "closed_mesh" } else { "open_mesh" });
+    let plane = Plane3::new(UnitVec3::new_normalize(n), d);
+    let mesh = bm.mesh(false);
+    let curves = match section_of(&mesh, &plane, curve_tol) {
+        Ok(c) => c,
+        Err(f) => return Verdict::Fail(f),
+    };
+    for (ci, c) in curves.iter().enumerate() {
+        for (vi, p) in c.points().iter().enumerate() {
+            let sd = plane.signed_distance_to_point(p);
+            ensure!(sd.abs() <= 1e-8 * scale, "C13/section/exact/vertex_off_plane", "curve {ci} vertex {vi} is {sd:e} from the plane");
+            let dm = soup.closest(p).0;
+            ensure!(dm <= 1e-8 * scale, "C13/section/exact/vertex_off_surface", "curve {ci} vertex {vi} is {dm:e} from the mesh surface");
+        }
+    }
+    let mut used = vec![0usize; expected.len()];
+    for (ci, c) in curves.iter().enumerate() {
+        for w in c.points().windows(2) {
+            let hit = expected.iter().position(|(a, b)| ((a - w[0]).norm() <= 1e-8 * scale && (b - w[1]).norm() <= 1e-8 * scale) || ((a - w[1]).norm() <= 1e-8 * scale && (b - w[0]).norm() <= 1e-8 * scale));
+            match hit {
+                Some(k) => used[k] += 1,
+                None => return Verdict::fail("C13/section/exact/edge_not_a_face_crossing", format!("curve {ci} has an edge {:?} -> {:?} that is not the crossing segment of any face (plane through mesh vertices)", w[0], w[1])),
+            }
+        }
+    }
+    ensure!(used.iter().all(|u| *u == 1), "C13/section/exact/crossing_segments_exactly_once", "{} distinct face crossings ({in_plane_edges} face sides lying in the plane), usage counts {:?}", expected.len(), used);
+    if bm.topo.closed && is_convex_kind(&case.mesh.kind) && case.mesh.extra.is_none() {
+        cx.label("exact_convex_loop");
+        ensure!(curves.len() == 1, "C13/section/exact/convex_one_loop", "{} curves on a convex solid cut through its vertices", curves.len());
+        let p = curves[0].points();
+        ensure!((p[0] - p[p.len() - 1]).norm() <= 1e-8 * scale, "C13/section/exact/open_curve_on_watertight_mesh", "the section loop of a convex solid is open: ends {:e} apart", (p[0] - p[p.len() - 1]).norm());
+        // independent perimeter: convex hull, in the plane, of all crossing points
+        let t = if n.x.abs() < 0.9 { crate::oracle::V3::x() } else { crate::oracle::V3::y() };
+        let (e0, e1) = (n.cross(&t).normalize(), n.cross(&n.cross(&t).normalize()));
+        let mut pts2: Vec<(f64, f64)> = expected.iter().flat_map(|(a, b)| [*a, *b]).map(|q| (q.coords.dot(&e0), q.coords.dot(&e1))).collect();
+        pts2.sort_by(|a, b| a.partial_cmp(b).unwrap());
+        let cr = |o: (f64, f64), a: (f64, f64), b: (f64, f64)| (a.0 - o.0) * (b.1 - o.1) - (a.1 - o.1) * (b.0 - o.0);
+        let mut hull: Vec<(f64, f64)> = vec![];
+        for pass in 0..2 {
+            let start = hull.len();
+            let it: Vec<(f64, f64)> = if pass == 0 { pts2.clone() } else { pts2.iter().rev().cloned().collect() };
+            for q in it {
+                while hull.len() >= start + 2 && cr(hull[hull.len() - 2], hull[hull.len() - 1], q) <= 0.0 {
+                    hull.pop();
+                }
+                hull.push(q);
+            }
+            hull.pop();
+        }
+        let per: f64 = (0..hull.len()).map(|i| ((hull[i].0 - hull[(i + 1) % hull.len()].0).powi(2) + (hull[i].1 - hull[(i + 1) % hull.len()].1).powi(2)).sqrt()).sum();
+        ensure!((curves[0].length() - per).abs() <= 1e-7 * scale, "C13/section/exact/convex_perimeter", "loop length {:e}, perimeter of the convex cross-section {per:e}", curves[0].length());
+    }
+    // moving mesh and plane together changes neither the number of curves nor their total length
+    let iso = case.t.to_iso();
+    let mut moved = bm.mesh(false);
+    moved.transform(&iso);
+    let mplane = plane.transform_by(&iso);
+    let mcurves = match section_of(&moved, &mplane, curve_tol) {
+        Ok(c) => c,
+        Err(f) => return Verdict::Fail(f),
+    };
+    let (l0, l1): (f64, f64) = (curves.iter().map(|c| c.length()).sum(), mcurves.iter().map(|c| c.length()).sum());
+    let mscale = scale + iso.translation.vector.norm();
+    if 1e-9 * mscale <= 5e-7 {
+        ensure!((l0 - l1).abs() <= 1e-7 * mscale, "C13/section/exact/commute/length", "total length {l0:e} before, {l1:e} after moving mesh and plane together");
+    }
+    if let Err(m) = guarded(|| mesh.split(&plane)) {
+        return Verdict::fail("C13/split/panic", m);
+    }
+    if in_plane_edges > 0 && expected.len() >= 3 {
         cx.nontrivial();
     }
     cx.pass()
